@@ -78,7 +78,13 @@ pub fn case_ops(scratch: &Path, meta: usize, id: &str, seed: u64, len: usize, po
         if r.dead {
             break;
         }
-        let op = gen_op(&r, &mut rng, &cfg);
+        let mut op = gen_op(&r, &mut rng, &cfg);
+        // a restart right where the hand-over from reader to writer is delicate: the cursor at a
+        // block or file end, or fewer than a header's worth of bytes left in the block
+        let room = BLOCK - r.real.cursor.1 % BLOCK;
+        if cfg.allow_reopen && (room < HEADER + 1 || room == BLOCK) && r.real.cursor.1 > 0 && rng.chance(1, 2) {
+            op = Op::Reopen(*rng.pick(&cfg.reopen_pols));
+        }
         let is_reopen = matches!(op, Op::Reopen(_));
         if is_reopen {
             r.apply(&Op::State);
